@@ -346,4 +346,79 @@ theorem C18_split (A : Arch α) (h : A.Inv) (k : Nat) (hk0 : 0 < k) (hk : k < A.
     rw [← hops, List.map_append]
     simp [netEval, List.foldl_append]
 
+
+/-! ### `read_layers`: index order and per-entry meaning
+
+The reader sorts the entry names with `entryLe` (numeric prefix, then the name) and folds over them. The order is a
+sorted permutation of the names of the file; an activation entry stands for one operator per neuron of the preceding
+linear layer, a weights entry for the stored matrix and bias. (The pattern `parseEntryName` and the character layout
+of names are decided per generated file by the correspondence check.) -/
+
+theorem entryLe_total (a b : String) : (entryLe a b || entryLe b a) = true := by
+  unfold entryLe
+  cases ha : entryIndex a <;> cases hb : entryIndex b <;> simp
+  · exact String.le_total a b
+  · rename_i x y
+    rcases Nat.lt_trichotomy x y with h | h | h
+    · exact Or.inl (Or.inl h)
+    · subst h
+      rcases String.le_total a b with h1 | h1
+      · exact Or.inl (Or.inr ⟨rfl, h1⟩)
+      · exact Or.inr (Or.inr ⟨rfl, h1⟩)
+    · exact Or.inr (Or.inl h)
+
+theorem entryLe_trans (a b c : String) (h1 : entryLe a b = true) (h2 : entryLe b c = true) : entryLe a c = true := by
+  unfold entryLe at *
+  cases ha : entryIndex a <;> cases hb : entryIndex b <;> cases hc : entryIndex c <;> simp_all
+  · exact String.le_trans h1 h2
+  · rename_i x y z
+    rcases h1 with h1 | ⟨rfl, h1⟩ <;> rcases h2 with h2 | ⟨rfl, h2⟩
+    · exact Or.inl (Nat.lt_trans h1 h2)
+    · exact Or.inl h1
+    · exact Or.inl h2
+    · exact Or.inr ⟨rfl, String.le_trans h1 h2⟩
+
+/-- the order in which `read_layers` processes the entries of a file -/
+def readOrder (names : List String) : List String := names.mergeSort entryLe
+
+theorem C18_read_layers_unfold (names : List String) (arrays : String → Option (Aff α)) :
+    readLayers names arrays = readLayers.go arrays (readOrder names) 0 [] := rfl
+
+/-- the processing order is sorted by (numeric prefix, name) … -/
+theorem C18_read_order_sorted (names : List String) : (readOrder names).Pairwise (fun a b => entryLe a b = true) :=
+  List.pairwise_mergeSort (fun a b c => entryLe_trans a b c) entryLe_total names
+
+/-- … is a permutation of the entry names of the file (nothing dropped, nothing repeated) … -/
+theorem C18_read_order_perm (names : List String) : (readOrder names).Perm names := List.mergeSort_perm names entryLe
+
+/-- … and is the index order: of two processed entries the earlier one has the smaller (or the same) index -/
+theorem C18_read_order_index (names : List String) :
+    (readOrder names).Pairwise (fun a b => ∀ x y, entryIndex a = some x → entryIndex b = some y → x ≤ y) := by
+  refine (C18_read_order_sorted names).imp ?_
+  intro a b h x y hx hy
+  unfold entryLe at h
+  rw [hx, hy] at h
+  simp at h
+  rcases h with h | ⟨h, _⟩ <;> omega
+
+/-- a ReLU entry: one operator per neuron of the preceding linear layer (`dim` is its output dimension) -/
+theorem C18_read_step_relu (arrays : String → Option (Aff α)) (nm d : String) (rest : List String) (dim : Nat)
+    (acc : List (Layer α)) (h : parseEntryName nm = some (d, "relu")) :
+    readLayers.go arrays (nm :: rest) dim acc = readLayers.go arrays rest dim (acc ++ (List.range dim).map Layer.relu) := by
+  simp [readLayers.go, h]
+
+/-- a weights entry: the stored matrix and bias become the next linear layer, whose output dimension is what the
+    following activation entries expand to -/
+theorem C18_read_step_linear (arrays : String → Option (Aff α)) (nm d : String) (rest : List String) (dim : Nat)
+    (acc : List (Layer α)) (a : Aff α) (h : parseEntryName nm = some (d, "linear.weights"))
+    (ha : arrays (d ++ ".linear.weights.npy") = some a) :
+    readLayers.go arrays (nm :: rest) dim acc = readLayers.go arrays rest a.outdim (acc ++ [.linear a]) := by
+  simp [readLayers.go, h, ha]
+
+/-- an entry that does not match the pattern is ignored -/
+theorem C18_read_step_ignored (arrays : String → Option (Aff α)) (nm : String) (rest : List String) (dim : Nat)
+    (acc : List (Layer α)) (h : parseEntryName nm = none) :
+    readLayers.go arrays (nm :: rest) dim acc = readLayers.go arrays rest dim acc := by
+  simp [readLayers.go, h]
+
 end AV
